@@ -192,6 +192,9 @@ func (p *Plan) Freeze() {
 	p.mu.Unlock()
 }
 
+// Rearm makes a fault fire again at its N-th matching call from now on.
+func (f *Fault) Rearm() { f.Hit, f.seen, f.HitAt = false, 0, "" }
+
 // enter registers a lower-layer call. It returns the global call number, the
 // fault kind to apply ("" = none) and whether the plan is frozen.
 func (p *Plan) enter(layer, call string, mutating bool) (n int, kind string, frozen bool) {
